@@ -48,6 +48,14 @@ T["C19"] = ("bracketing-condition postcondition on every bisect call + closed-fo
             "Every call of bisect (all aliases, incl. those made by quadratic_cvar, HedgeLoss.cash and implied_volatility) is judged on the real function: result inside the "
             "bracket, a root within precision (direction-aware, noise-aware), evaluation count bounded by max_iter, RuntimeError only when precision is unreachable; analytic "
             "monotone families are compared with their closed-form inverse and implied volatility is round-tripped for the four modules. One known finding (python-float brackets searched in float32).", "4 C19")
+T["C02"] = ("information-flow sanitizer: NaN/scale/resample poisoning of future columns of every buffer, bit-identical prefix oracle",
+            "For randomised hedging pipelines (all stock models, derivative types, hedge lists, built-in and user models, both evaluation branches, grad on/off) and for every "
+            "registered feature, every buffer is poisoned at columns > t and the real computation repeated; hedge and feature prefixes must be bit-identical and the last "
+            "reported position must equal the previous one.", "4 C02")
+T["C03"] = ("differential monitor (single step vs all steps, vectorised vs stepwise branch) + forward-hook taps on the model's inputs/outputs",
+            "Every feature at every step is compared with the column of its all-steps evaluation; the same model is run through both branches of compute_hedge; "
+            "pre/forward hooks on the model check that the prev_hedge entries at step i are bit-identical to the output of step i-1 and zeros (one per instrument) at step 0, "
+            "also on repeated calls of one hedger.", "4 C03")
 NA = {}
 
 def main():
